@@ -201,6 +201,8 @@ def _flag_ok(prog, body, arg, recv, depth=0):
         return True if same else "other-state:%s vs %s" % (sig(a[2][0]), sig(recv))
     if a[0] == "const":
         return False
+    if a[0] == "call" and a[1].split("::")[-1].startswith("tip_") and "UnsealedState" in a[1]:
+        return False                     # another activation predicate (tip_901, tip_909, ..): the counts are kept from TIP-906 on, no other height
     if a[0] == "param" and depth < 3:
         res = []
         for cid in prog.callers_of(body.id):
